@@ -270,6 +270,15 @@ pub(crate) fn apply_rules_on_link(
                     }
                 }
                 ArtifactRule::Disallow(_) => {
+                    // a DISALLOW rule that cannot be interpreted must not be skipped
+                    if let Err(e) = VirtualTargetPath::new(String::new())?
+                        .matches(rule.pattern().value())
+                    {
+                        return Err(Error::ArtifactRuleError(format!(
+                            "artifact verification failed for {:?}: cannot interpret the pattern of {:?} in {}: {}",
+                            verification_data.src_type, rule, item_name, e
+                        )));
+                    }
                     if !filtered.is_empty() {
                         return Err(Error::ArtifactRuleError(format!(
                             r#"artifact verification failed for {:?} in DISALLOW, because {:?} is disallowed by rule {:?} in {}"#,
